@@ -249,6 +249,12 @@ def random_case(draw):
         elif pl == "dup" and r:
             r.append(draw(st.sampled_from(r)))
     r = sorted(round(x, 1) if fl else x for x in r)
+    if draw(st.integers(0, 7)) == 0:
+        # a placement far down a chromosome (beyond 2^24 / 2^27 / 2^31 bp): the same geometry, every reference coordinate and
+        # the seed offset moved by one amount
+        far = draw(st.sampled_from([2 ** 24 - 3, 2 ** 24 + 1, 17_000_001, 2 ** 25 + 7, 2 ** 27 + 5, 152_600_007, 2 ** 31 + 11]))
+        r = [round(x + far, 1) if fl else x + far for x in r]
+        start, end = start + far, end + far
     return {"r": r, "q": q, "qlen": qlen, "shift": shift, "rev": rev, "maxd": D, "start": start, "end": end, "float": fl}
 
 
